@@ -1,6 +1,6 @@
 From Coq Require Import ZArith List.
 From V Require Import Base.Wire.
-From V Require Check.C12 Check.C10 Check.C13.
+From V Require Check.C12 Check.C10 Check.C13 Check.C20.
 Import ListNotations.
 Open Scope Z_scope.
 
@@ -8,6 +8,7 @@ Definition checker (prop : Z) : option (rd verdict) :=
   if prop =? 12 then Some C12.check
   else if prop =? 10 then Some C10.check
   else if prop =? 13 then Some C13.check
+  else if prop =? 20 then Some C20.check
   else None.
 
 Definition verif_dispatch (prop : Z) (case : list Z) : list Z :=
